@@ -368,7 +368,10 @@ class IncludeScanLoop(LoopSpec):
         if ok:
             k, v = inc.entries[0]
             yield "recorded-under-the-line-index", S.eq(k, idx)
-            fn = post["fn"]
+            # the directory is that of the ARGUMENT fn (cwd + sep when none was given), whatever the local is called now
+            import os as _os
+            root = E.__dict__.get("fn_arg")
+            fn = root if root is not None else S.concat(S.Sym(S.STR, os_cwd), _os.sep)
             name = S.Sym(S.STR, inc_name(l.t))
             path = S.ite(S.Sym(S.BOOL, os_isabs(name.t)), name,
                          S.Sym(S.STR, os_abspath(os_join(os_dirname(S.term(fn)), name.t))))
@@ -421,6 +424,7 @@ class LoadIncludes(Contract):
         lines = AbsColl("lines", pytype=list)
         text = JoinedText(lines)
         fn = E.str("fn") if fnk == "fn" else None
+        E.__dict__["fn_arg"] = fn
         n = E.int("nested")
         E.assume(S.and_(n >= 0, n <= 5))
         E.assume(n < 5 if dk == "depth<5" else S.eq(n, 5))
